@@ -99,13 +99,14 @@ CallOrPartApply(callee, args) ==
 Then(v, args) == IF v.k = "err" THEN Err ELSE IF v.k \in {"unknown", "call"} THEN Unknown ELSE CallOrPartApply(v, args)
 
 Forms2 == {"infix", "call", "bang", "backtick", "sec1", "sec2", "chsec1", "chsec2", "apply", "of",
-           "juxta", "rsec", "opassign", "splat", "secsp1", "secsp2"}
+           "juxta", "rsec", "opassign", "splat", "secsp1", "secsp2", "opself"}
 Forms1 == {"call", "bang", "splat", "dot", "then", "sec"}
 Forms3 == {"call", "bang", "splat", "sec1", "sec2", "sec3", "secall", "secsp1", "secsp3", "secspmid"}
 
 \* two data arguments a, b
 Den2(form, f, a, b) ==
     CASE form \in {"infix", "backtick", "opassign"} -> Run(f, <<a, b>>)            \* f.run2(a, b)
+      [] form = "opself" -> Run(f, <<a, a>>)                                       \* x = a; x f= x  (the right-hand side reads x)
       [] form \in {"call", "bang", "splat"} -> CallOrPartApply(f, <<a, b>>)
       \* a splatted argument of a section is expanded when the section is BUILT, before or after a hole
       [] form \in {"sec1", "secsp1"} -> Then(CallSec(f, <<Hole, b>>), <<a>>)       \* f(_, b)(a),  f(_, ...[b])(a)
@@ -128,7 +129,7 @@ Den3(form, f, a, b, c) ==
 
 (* ------------------------------ the property --------------------------- *)
 \* forms that agree unconditionally
-Always2 == Forms2 \ {"juxta", "rsec"}
+Always2 == Forms2 \ {"juxta", "rsec", "opself"}
 FormsAgree2(f, a, b) ==
     /\ \A form \in Always2 : Den2(form, f, a, b) = Run(f, <<a, b>>)
     /\ ~IsFunc(a) => Den2("juxta", f, a, b) = Run(f, <<a, b>>)
